@@ -91,6 +91,8 @@ class Ledger(object):
         if kind == "move":
             return bool(op[3]) and self.prefix_map.get(B(op[1])) != op[3]
         if kind == "delete":
+            if len(op) > 3 and op[3] == "unchecked":
+                return False
             return any(self.prefix_map.get(B(p)) != op[1] for p in op[2])
         return False
 
